@@ -1,0 +1,7 @@
+//go:build !verif
+
+package gradtrack
+
+func verifBP(string, *GradContext) {}
+
+func verifEdge(*GradContext, *GradContext, *backwardEdge) {}
